@@ -118,6 +118,7 @@ def run_rule(ctx, repo):
         return
     clock_discipline(ctx, repo)
     ts_attrs = typestate_attrs(repo, helpers)
+    step_size_after_rollback(ctx, repo, f, back, fail_succ, loops0, ts_attrs)
     loops = [n for n in f.g.nodes() if f.g.data(n)["kind"] == "loop" and isinstance(f.g.data(n)["ast"], ast.While)]
     for r in back:
         st = f.g.data(r)["ast"]
@@ -187,6 +188,28 @@ def run_rule(ctx, repo):
             ok_b, pth_b = f.g.must_pass(r, loops[0], sorted(adv) + aborts, infeasible_edges=infeasible)
             ctx.check(ok_b, "C04.rollback", "TDS.run/re-advance@%s" % src(st)[:40], "after a rollback the clock is advanced again before the next attempt",
                       "after the rollback `%s` the loop can start the next attempt without advancing the clock: %s" % (src(st), f.g.fmt_path(pth_b or [])), f.W(r))
+
+
+def step_size_after_rollback(ctx, repo, f, back, fail_succ, loops, ts_attrs):
+    """calc_h clips the step against tf - t and the next event time - t, so in the rejected-step branch it must see the clock at the START
+    of the retried step: every path from the rejection to a calc_h call passes the rollback decision (the rollback itself, or the test of the
+    typestate attribute that guards it)."""
+    calcs = [n for n in f.calls("self.calc_h")]
+    guards = []
+    for r in back:
+        for t_, _pol in (Q.path_condition(f.fn, f.g.data(r)["ast"]) or []):
+            t2 = Q.subst_bool_locals(f.fn, t_)
+            if {dotted(x) for x in ast.walk(t2) if isinstance(x, ast.Attribute)} & ts_attrs:
+                guards += [n for n in f.g.nodes() if f.g.data(n)["kind"] == "test" and f.g.data(n)["expr"] and f.g.data(n)["expr"][0] is t_]
+    for c in calcs:
+        starts = [m for m in fail_succ if m == c or f.g.reachable(m, c, avoid=loops)]
+        if not starts:
+            continue
+        ok = all(m == c and False or f.g.must_pass(m, c, list(back) + guards)[0] for m in starts)
+        ctx.check(ok, "C04.rollback", "TDS.run/calc_h-after-rollback@L%d" % f.g.line(c),
+                  "in the rejected-step branch the new step size is computed after the clock went back to the start of the step",
+                  "calc_h() at L%d runs before the clock is moved back: the step is clipped against tf and the next event from the END of the "
+                  "rejected step, so the retry can be cut to h = 0 at tf or jump to tf over a much longer stamp gap than the step integrated" % f.g.line(c), f.W(c))
 
 
 def clock_discipline(ctx, repo):
